@@ -544,7 +544,12 @@ def r8_trims_remove_blanks_only(ctx, rule="C17.R8"):
                     o = mir.strip_all(pv.of_operand(t["args"][1]))
                     pat.append((last, o[1] if o[0] == "const" else mir.short_origin(o)))
         n += 1
-        blank_only = bool(pat) and all(str(c) in ("' '", "32_u8", "' ' as char") or str(c).startswith("' '") for _l, c in pat)
+        blank_only = all(str(c) in ("' '", "32_u8", "' ' as char") or str(c).startswith("' '") for _l, c in pat)
+        if not bare and not pat:
+            # trimmed by hand (a loop, `find`): which characters go is a property of that code, not decided here
+            ctx.ok(rule, "%s:%s" % (rule, what), fns[0].loc, "no std trim is used; the hand-written trimming is not judged")
+            ctx.not_decided.append("%s: the character class removed by a hand-written trim" % rule)
+            continue
         ctx.decide(not bare and blank_only, rule, "%s:%s" % (rule, what), fns[0].loc,
                    "trims with the pattern %s" % [c for _l, c in pat],
                    "%s is computed with %s: every Unicode white space is removed, not only blanks - `RTRIM$(\"ab\" + CHR$(9))` "
